@@ -71,20 +71,24 @@ def gen_ops(r, geom, nops):
                 a, b = b, a
             ops.append("FS %d %d" % (a, b))
         elif k < 0.91:
-            # bulk get: cluster index, (a - start) multiple of 8, inside [start, end]
+            # bulk get: any position and length inside [start, end] (byte boundaries half of the time)
             nb = end - start + 1
-            off = 8 * r.randint(0, max(0, (nb - 1) // 8))
+            off = 8 * r.randint(0, max(0, (nb - 1) // 8)) if r.random() < 0.5 else r.randint(0, max(0, nb - 1))
             n = r.randint(0, max(0, nb - off))
             ops.append("GR %d %d" % (start + off, n))
         elif k < 0.95:
             nb = end - start + 1
-            off = 8 * r.randint(0, max(0, (nb - 1) // 8))
-            n = 8 * r.randint(0, max(0, (nb - off) // 8))
+            if r.random() < 0.5:
+                off = 8 * r.randint(0, max(0, (nb - 1) // 8))
+                n = 8 * r.randint(0, max(0, (nb - off) // 8))
+            else:
+                off = r.randint(0, max(0, nb - 1))
+                n = r.randint(0, max(0, nb - off))
             kind = r.random()
             if kind < 0.3:
                 bits = "".join(r.choice("01") for _ in range(n))
             elif kind < 0.6:
-                bits = "".join(r.choice(["00000000", "11111111", "00111100", "11110000"]) for _ in range(n // 8))
+                bits = "".join(r.choice(["00000000", "11111111", "00111100", "11110000"]) for _ in range(n // 8 + 1))[:n]
             else:
                 bits = "".join(r.choice("0001") for _ in range(n))
             ops.append("SR %d %d %s" % (start + off, n, bits))
@@ -157,6 +161,9 @@ CORPUS = [
     ((0, 63, 63, 0), ["FZ 0 63", "GR 0 16", "M 10", "M 11", "U 9", "T 9", "FZ 10 63"]),
     ((0, 40, 47, 0), ["M 40", "PAD", "RS 30 47", "RS 44 47", "T 35", "T 41", "FS 0 44", "RS 46 60", "FS 31 46"]),
     ((1, 40, 47, 0), ["MR 5 5", "SR 9 16 1111000011110000", "GR 1 40", "TR 10 3", "SNAP", "M 40", "CMP"]),
+    # bulk get/set off the byte boundaries, and lengths that are not whole bytes
+    ((0, 63, 63, 0), ["M 13", "M 20", "GR 3 16", "SR 5 6 110011", "GR 0 16", "SR 17 3 101", "GR 16 8", "GR 2 61"]),
+    ((1, 40, 47, 0), ["MR 3 30", "SR 8 5 01010", "GR 1 40", "GR 6 13", "SR 2 39 " + "10" * 19 + "1", "GR 1 40"]),
     ((0, 30, 31, 2), ["M 7", "MR 8 9", "T 4", "FS 0 100", "FZ 4 123", "UR 3 2", "TR 0 4"]),
 ]
 
